@@ -236,19 +236,27 @@ def qlogP : P (Option QLog) := do
                  origAnswer := if hasOrig then some orig else none })
   else fail
 
-/-- `err` | `ok` msg log qlog -/
-def outcomeP : P Outcome := do
+/-- `err` | `ok` msg log qlog (one outcome, more fields may follow) -/
+def outcomeP1 : P Outcome := do
   let tag ← next
-  if tag == "err" then do
-    atEnd
-    pure .err
+  if tag == "err" then pure .err
   else if tag == "ok" then do
     let m ← msgP
     let log ← listOf queryTok
     let ql ← qlogP
-    atEnd
     pure (.done m log ql)
   else fail
+
+def outcomeP : P Outcome := do
+  let o ← outcomeP1
+  atEnd
+  pure o
+
+/-- reload mode: the distinct outcomes observed for one query line -/
+def outcomesP : P (List Outcome) := do
+  let l ← listOf outcomeP1
+  atEnd
+  pure l
 
 def renderMsg (m : Msg) : List String :=
   [toString m.rcode, hexEncode m.qname, toString m.qtype, toString m.answer.length] ++
@@ -298,6 +306,13 @@ def oracleEngines (cs : Case) : Engines where
   block := fun r => match cs.oracles.find? (fun o => o.host == r.host && o.rrtype == r.qtype) with
     | some o => o.block | none => none
   svc := fun sv h => h == qhost cs.q && cs.svcOracle.contains sv.name
+
+/-- the bulk list of the reload mode (same lines as `c01Filler` in the harness) -/
+def fillerLines (n : Nat) : List Bytes :=
+  (List.range n).map (fun i => Bytes.ofString ("||f" ++ toString i ++ ".bulk-filler.test^"))
+
+def Case.withFiller (cs : Case) (n : Nat) : Case :=
+  { cs with blockLists := cs.blockLists ++ [(true, fillerLines n)] }
 
 /-- Layer B: the engines computed from the rule texts of the case by the model
 of urlfilter.  `none` if some line is outside the modelled grammar. -/
